@@ -742,7 +742,7 @@ theorem setInsertRow_new {db : DB} (hw : SetWF db) {k : Bytes} {id : Int} {et : 
       = db.sets.filter (fun x => x.kid == j) := by
     intro j hj
     have : (r.id == j) = false := by simpa using fun h : r.id = j => hj h.symm
-    simp [List.filter_append, List.filter_cons, row, this]
+    simp [List.filter_append, row, this]
   have hw' : SetWF (modDb db r.id r' (db.sets ++ [row])) := by
     refine mod_setwf hw hr hc hs ?_ ?_ ?_
     · rw [List.map_append, List.nodup_append]
@@ -763,7 +763,7 @@ theorem setInsertRow_new {db : DB} (hw : SetWF db) {k : Bytes} {id : Int} {et : 
       have := hw.setLen r hr hty
       show r.len.map (· + 1) = _
       rw [this]
-      simp [List.filter_append, List.filter_cons, row]
+      simp [List.filter_append, row]
   refine ⟨_, heq, hw', ?_, ?_, ?_⟩
   · rw [← hrk]; exact mod_frame hw.wf hr hc hs
   · rw [← hrk, ← het]; exact mod_isSetRow hw.wf hr hc hty
